@@ -11,6 +11,7 @@ imported from phonopy.units.
 from __future__ import annotations
 
 import os
+import re
 
 import numpy as np
 
@@ -37,13 +38,17 @@ ALL_CALCULATORS = sorted(UNITS)
 OUTPUT_FORCE_UNIT = {
     "vasp": 1.0, "abinit": 1.0, "qe": RYDBERG / BOHR, "elk": HARTREE / BOHR, "siesta": 1.0, "dftbp": HARTREE / BOHR,
     "castep": 1.0, "pwmat": 1.0, "crystal": HARTREE / BOHR, "turbomole": HARTREE / BOHR,
-    "aims": 1.0, "abacus": 1.0, "lammps": 1.0,
+    "aims": 1.0, "abacus": 1.0, "lammps": 1.0, "cp2k": HARTREE / BOHR, "fleur": HARTREE / BOHR,
 }
 PEER_CALCULATORS = sorted(OUTPUT_FORCE_UNIT)
 CARRIES_POSITIONS = {"vasp"}
 # interfaces whose writer/reader pair can be exercised offline (cp2k needs cp2k-input-tools; crystal's reader parses
 # CRYSTAL *output*, not the input its writer produces).  wien2k: structure files only (P lattice, every atom its own
 # site); its symmetry-reduced force format has no peer.
+# calculators whose force-output reader is exercised without their structure files: the peer takes the displaced positions from
+# phonopy's own objects (cp2k: structure reader needs cp2k-input-tools; crystal: reader parses CRYSTAL output, not the written input;
+# fleur: written files cannot be read back, a recorded finding - the reader of its FORCES file is still exercised)
+FORCES_ONLY = ["cp2k", "crystal", "fleur"]
 STRUCTURE_ROUNDTRIP = ["vasp", "abinit", "qe", "elk", "siesta", "dftbp", "turbomole", "aims", "castep", "abacus", "lammps", "pwmat", "fleur", "wien2k"]
 
 
@@ -301,6 +306,13 @@ def write_force_output(calc, filename, read_cell, forces_eVA, energy=-10.0, late
                   "ITEM: ATOMS id type x y z fx fy fz"]
         for i, (p, v) in enumerate(zip(read_cell.positions, F)):
             lines.append("%d %d %15.8f %15.8f %15.8f %20.12f %20.12f %20.12f" % (i + 1, 1, p[0], p[1], p[2], v[0], v[1], v[2]))
+    elif calc == "cp2k":
+        lines += [" ATOMIC FORCES in [a.u.]", "", " # Atom   Kind   Element          X              Y              Z"]
+        lines += [" %6d %6d %6s  %22.14E %22.14E %22.14E" % ((i + 1, 1, re.sub(r"\d+$", "", sy)) + tuple(v)) for i, (v, sy) in enumerate(zip(F, read_cell.symbols))]
+        lines.append(" SUM OF ATOMIC FORCES  0.0 0.0 0.0 0.0")
+    elif calc == "fleur":
+        lines += ["energy force", "%.10f" % energy, "1 # iteration"]
+        lines += ["%22.14E %22.14E %22.14E force" % tuple(v) for v in F]
     elif calc == "crystal":
         lines.append(" CARTESIAN FORCES IN HARTREE/BOHR (ANALYTICAL)")
         lines.append("   ATOM                     X                   Y                   Z")
@@ -320,7 +332,7 @@ def truncate_in_force_block(calc, filename):
     lines = text.split("\n")
     marker = {"vasp": 'name="forces"', "abinit": "cartesian forces", "qe": "Forces acting", "elk": "Forces :", "siesta": None, "dftbp": "forces   ",
               "castep": "Cartesian components", "pwmat": "force (eV/A)", "crystal": "ATOM   ", "turbomole": "cycle =", "aims": "Total atomic forces",
-              "abacus": "TOTAL-FORCE", "lammps": "ITEM: ATOMS"}[calc]
+              "abacus": "TOTAL-FORCE", "lammps": "ITEM: ATOMS", "cp2k": "# Atom", "fleur": "1 #"}[calc]
     start = 0
     if marker is not None:
         for i, ln in enumerate(lines):
